@@ -68,7 +68,12 @@ func ProvideMintFn(bankKeeper BankKeeper) minttypes.MintFn {
 		}
 
 		lastMint := binary.BigEndian.Uint64(minter.Data)
-		binary.BigEndian.PutUint64(minter.Data, (uint64)(env.HeaderService.HeaderInfo(ctx).Time.Unix()))
+		// store the time in a fresh slice: the callers in x/mint keep a shallow copy of the minter and
+		// save it only if it differs from that copy - writing into the shared slice would make both
+		// equal and the new last-mint time would never be persisted
+		data := make([]byte, 8)
+		binary.BigEndian.PutUint64(data, (uint64)(env.HeaderService.HeaderInfo(ctx).Time.Unix()))
+		minter.Data = data
 
 		// calculate the amount of tokens to mint, based on the time since the last mint
 		secondsSinceLastMint := env.HeaderService.HeaderInfo(ctx).Time.Unix() - (int64)(lastMint)
